@@ -92,6 +92,16 @@ def gen(rng, tier):
         for i in range(0, len(vals), per):
             cmds = ["newini 0"]; obs = [False]
             grp = [rng.choice([None, b"sec", b"other", b"sec", b"Sec", b"SEC"]) for _ in range(per)]
+            if rng.random() < 0.3:
+                # the object comes from a file that assigns every key twice (the first assignment is the visible one:
+                # it is the one a setter replaces, and the one that must be visible again after writing and reading)
+                txt = b""
+                for gname in (None, b"sec", b"other", b"Sec", b"SEC"):
+                    ks = [b"k%d" % j for j in range(len(vals[i:i + per])) if grp[j] == gname]
+                    if gname is not None and ks: txt += b"[" + gname + b"]\n"
+                    for kk in ks: txt += kk + b"=1\n"
+                    for kk in ks: txt += kk + b"=2\n"
+                cmds = [gens.parse_cmd(0, b"/d/twice.conf", txt, b"=", b"#")]
             if rng.random() < 0.5:
                 # the file the values are written to exists already and is longer: the same keys with long texts,
                 # saved once before (a second save of the same file must replace it, not overlay it)
